@@ -9,7 +9,10 @@ signatures, votes naming another id, votes declaring another view, the collector
 signatures riding on a vote message and repeated votes of one member never help.
 
 All theorems quantify over every validator-set function `vals`, every collector address and every
-history of proposal and vote messages (`run … (init self) evs`).
+history of proposal and vote messages (`run … (init self) evs`).  The section on restarts does the same for
+a collector rebuilt from a ledger (`run … (restart self start tip just) evs`, for every StartHeight, tip and
+clean certificates in the last blocks): there the vote log has a second writer, the constructor, which
+re-loads the ledger's certificates; each is held for the block it certifies and the tip block has none.
 -/
 namespace XV.C14c
 open XV.Safety XV.Collect
@@ -879,6 +882,155 @@ theorem justify_declared_view_as_found_counterexample : ¬ justify_checked_again
   revert this
   decide
 
+/-! ### a collector restarted on a ledger -/
+
+/-- The restart state proper (the root of the rebuilt tree is not the genesis of the instance) needs a tip
+above StartHeight and at least three blocks below it; the root is the block `tip - 3`. -/
+theorem restarted_spec (start tip : Nat) (h : restarted start tip = true) :
+    3 ≤ tip ∧ start < tip ∧ rootHeight start tip = tip - 3 := by
+  unfold restarted rootHeight at h
+  unfold rootHeight
+  by_cases h1 : tip ≤ start
+  · simp [h1] at h
+  · by_cases h2 : tip < 3
+    · simp [h1, h2] at h
+      omega
+    · simp [h1, h2]
+      omega
+
+theorem findNode_range_map (f : Nat → Node) (hf : ∀ i, (f i).id = i) (n k : Nat) (hk : k < n) :
+    findNode ((List.range n).map f) k = some (f k) := by
+  induction n with
+  | zero => omega
+  | succ n ih =>
+    rw [List.range_succ, List.map_append]
+    by_cases hkn : k < n
+    · exact findNode_append _ _ _ _ (ih hkn)
+    · have hkn' : k = n := by omega
+      subst hkn'
+      unfold findNode
+      rw [List.find?_append]
+      have hnone : ((List.range k).map f).find? (fun nd => nd.id == k) = none := by
+        rw [List.find?_eq_none]
+        intro x hx
+        obtain ⟨i, hi, hxi⟩ := List.mem_map.mp hx
+        subst hxi
+        have : i < k := List.mem_range.mp hi
+        simp [hf i]; omega
+      rw [hnone]
+      simp [hf k]
+
+/-- the entries a restarted collector holds for proposal `id` before any message arrives -/
+def loadedFor (self start tip : Nat) (just : Nat → List Entry) (id : Nat) : List Entry :=
+  (logOf (restart self start tip just).log id).getD []
+
+theorem mem_loadOne (start : Nat) (just : Nat → List Entry) (b : Nat) (c : Nat × List Entry)
+    (h : c ∈ loadOne start just b) : start < b ∧ c = (b - 1, just b) := by
+  unfold loadOne at h
+  split at h
+  · rename_i hb
+    simp only [List.mem_singleton] at h
+    exact ⟨hb.1, h⟩
+  · simp at h
+
+/-- Whatever a restarted collector holds for a proposal id is the justify certificate stored in one of the
+last three ledger blocks, and it is held for the PREDECESSOR of the block that stores it - the block the
+certificate certifies -, never for another block. -/
+theorem restart_log_mem (self start tip : Nat) (just : Nat → List Entry) (id : Nat) (es : List Entry)
+    (h : logOf (restart self start tip just).log id = some es) :
+    restarted start tip = true ∧ ∃ b, (b = tip ∨ b = tip - 1 ∨ b = tip - 2) ∧ start < b ∧
+      id = relId (rootHeight start tip) (b - 1) ∧ es = just b := by
+  unfold logOf at h
+  obtain ⟨p, hp, hpe⟩ := Option.map_eq_some_iff.mp h
+  have hmem := List.mem_of_find?_eq_some hp
+  have hid : p.1 = id := by simpa using List.find?_some hp
+  simp only [restart] at hmem
+  obtain ⟨c, hc, hcp⟩ := List.mem_map.mp hmem
+  unfold loadedCerts at hc
+  split at hc
+  · rename_i hr
+    refine ⟨hr, ?_⟩
+    have hb : ∃ b, (b = tip ∨ b = tip - 1 ∨ b = tip - 2) ∧ start < b ∧ c = (b - 1, just b) := by
+      rcases List.mem_append.mp hc with hc | hc
+      · rcases List.mem_append.mp hc with hc | hc
+        · exact ⟨tip, Or.inl rfl, mem_loadOne _ _ _ _ hc⟩
+        · exact ⟨tip - 1, Or.inr (Or.inl rfl), mem_loadOne _ _ _ _ hc⟩
+      · exact ⟨tip - 2, Or.inr (Or.inr rfl), mem_loadOne _ _ _ _ hc⟩
+    obtain ⟨b, hb1, hb2, hcb⟩ := hb
+    refine ⟨b, hb1, hb2, ?_, ?_⟩
+    · rw [← hid, ← hcp, hcb]
+    · rw [← hpe, ← hcp, hcb]
+  · simp at hc
+
+/-- the certificates of the ledger are clean: valid signatures of distinct members (of every view's set) other
+than the node itself - what an honest collector, this node included, assembles -/
+def CleanCerts (vals : Int → List Nat) (self : Nat) (just : Nat → List Entry) : Prop :=
+  ∀ b, ((just b).map (·.addr)).Nodup ∧ ∀ e ∈ just b, e.valid = true ∧ e.addr ≠ self ∧ ∀ v, e.addr ∈ vals v
+
+/-- The vote log of a collector restarted on a ledger with clean certificates satisfies the invariant, with
+the loaded certificates as the entries held before the history begins. -/
+theorem restart_logOk (vals : Int → List Nat) (self start tip : Nat) (just : Nat → List Entry)
+    (hc : CleanCerts vals self just) :
+    LogOk (loadedFor self start tip just) vals [] (restart self start tip just) := by
+  intro id es hes
+  obtain ⟨hr, b, hb, hsb, hid, hesb⟩ := restart_log_mem self start tip just id es hes
+  obtain ⟨h3, hst, hroot⟩ := restarted_spec start tip hr
+  have hk : id < tip + 1 - rootHeight start tip := by
+    rw [hid, hroot]; unfold relId; split <;> omega
+  refine ⟨_, findNode_range_map _ (fun _ => rfl) _ id hk, ?_, ?_⟩
+  · rw [hesb]; exact (hc b).1
+  · intro e he
+    rw [hesb] at he
+    obtain ⟨h1, h2, h3⟩ := (hc b).2 e he
+    refine ⟨h1, h2, h3 _, ?_⟩
+    apply List.mem_append_left
+    unfold loadedFor
+    rw [hes, hesb]
+    exact he
+
+/-- **Collection-side C14 after a restart.**  For every ledger (StartHeight, tip, clean certificates in its last
+blocks), every validator-set function and every history of proposal and vote messages received after the
+restart: a vote message makes the restarted collector declare a quorum only if the proposal it names is in
+the tree under the view the vote declares and valid signatures over that id come from at least
+`n - ⌊(n-1)/3⌋ - 1` distinct members besides the collector - signatures that arrived, after the restart, as
+first signature of a vote message naming the id, or that the ledger's certificate FOR THAT ID carries. -/
+theorem restart_declared_quorum_is_genuine (vals : Int → List Nat) (self start tip : Nat) (just : Nat → List Entry)
+    (hc : CleanCerts vals self just) (evs : List Ev) (m : VoteMsg)
+    (h : (handleVote vals (run vals (restart self start tip just) evs) m).2.2 = true) :
+    ∃ nd, lookup (run vals (restart self start tip just) evs) m.id = some nd ∧ nd.view = m.view ∧
+      quorum (vals nd.view).length ≤
+        (validMembersBut self (vals nd.view)
+          (loadedFor self start tip just m.id ++ firstSigs m.id (votesOf evs ++ [m]))).length :=
+  declared_quorum_from (loadedFor self start tip just) vals (restart self start tip just)
+    (restart_logOk vals self start tip just hc) evs m h
+
+/-- Nothing is held for the tip block after a restart (its certificate is in no ledger block yet), nor for any
+block above it. -/
+theorem restart_tip_not_loaded (self start tip : Nat) (just : Nat → List Entry) (h : Nat) (hh : tip ≤ h) :
+    loadedFor self start tip just (relId (rootHeight start tip) h) = [] := by
+  unfold loadedFor
+  cases hl : logOf (restart self start tip just).log (relId (rootHeight start tip) h) with
+  | none => rfl
+  | some es =>
+    obtain ⟨hr, b, hb, hsb, hid, _⟩ := restart_log_mem self start tip just _ es hl
+    obtain ⟨h3, _, hroot⟩ := restarted_spec start tip hr
+    rw [hroot] at hid
+    unfold relId at hid
+    split at hid <;> split at hid <;> omega
+
+/-- Hence the quorum a restarted collector declares for its tip block (the block it collects for when it was the
+next leader) rests on votes that arrived after the restart alone: no signature taken from the ledger helps. -/
+theorem restart_tip_quorum_needs_arrived_votes (vals : Int → List Nat) (self start tip : Nat) (just : Nat → List Entry)
+    (hc : CleanCerts vals self just) (evs : List Ev) (m : VoteMsg) (hm : m.id = relId (rootHeight start tip) tip)
+    (h : (handleVote vals (run vals (restart self start tip just) evs) m).2.2 = true) :
+    ∃ nd, lookup (run vals (restart self start tip just) evs) m.id = some nd ∧ nd.view = m.view ∧
+      quorum (vals nd.view).length ≤
+        (validMembersBut self (vals nd.view) (firstSigs m.id (votesOf evs ++ [m]))).length := by
+  obtain ⟨nd, h1, h2, h3⟩ := restart_declared_quorum_is_genuine vals self start tip just hc evs m h
+  refine ⟨nd, h1, h2, ?_⟩
+  rw [hm, restart_tip_not_loaded self start tip just tip (Nat.le_refl _), List.nil_append, ← hm] at h3
+  exact h3
+
 /-! ### non-vacuity -/
 
 -- n = 5, collector 0: the votes of members 1, 2 (delivered twice), 3 — the third distinct voter declares the
@@ -895,5 +1047,20 @@ example :
       .vote ⟨1, 1, [⟨7, true⟩]⟩, .vote ⟨1, 1, [⟨3, false⟩]⟩, .vote ⟨1, 2, [⟨3, true⟩]⟩, .vote ⟨0, 0, [⟨3, true⟩]⟩,
       .vote ⟨1, 1, [⟨2, true⟩]⟩, .vote ⟨1, 1, [⟨1, true⟩]⟩]
     s.high.id = 0 ∧ s.view = 1 ∧ (logOf s.log 1).map (·.map (·.addr)) = some [1, 2] := by decide
+
+-- n = 3, the node is validator 0, ledger 0..4 with StartHeight 1, every justify signed by 1 and 2: after the
+-- restart HighQC is block 3 (id 2), the view 3, the certificates of blocks 1, 2, 3 are held under ids 0, 1, 2,
+-- nothing for the tip (id 3); the tip's proposal arrives again; ONE vote declares nothing, the second one does
+private def three : Int → List Nat := fun _ => [0, 1, 2]
+private def j12 : Nat → List Entry := fun b => if b ≤ 1 then [] else [⟨1, true⟩, ⟨2, true⟩]
+example :
+    let s0 := restart 0 1 4 j12
+    s0.high.id = 2 ∧ s0.view = 3 ∧ s0.genesis = 100 ∧ loadedFor 0 1 4 j12 2 = [⟨1, true⟩, ⟨2, true⟩] ∧ loadedFor 0 1 4 j12 3 = [] ∧
+    (let s := run three s0 [.prop ⟨3, 4, 2, 3, [⟨1, true⟩, ⟨2, true⟩]⟩]
+     (handleVote three s ⟨3, 4, [⟨1, true⟩]⟩).2.2 = false ∧
+     (handleVote three (handleVote three s ⟨3, 4, [⟨1, true⟩]⟩).1 ⟨3, 4, [⟨2, true⟩]⟩).2.2 = true ∧
+     (handleVote three (handleVote three s ⟨3, 4, [⟨1, true⟩]⟩).1 ⟨3, 4, [⟨2, true⟩]⟩).1.high.id = 3) := by decide
+-- the votes for the tip are dropped until its proposal message arrives again (a restarted node knows the root only)
+example : (handleVote three (restart 0 1 4 j12) ⟨3, 4, [⟨1, true⟩]⟩).2.1 = .drop := by decide
 
 end XV.C14c
